@@ -25,6 +25,7 @@ func c02Monitor(rep *Report, c *L1Case) {
 		return
 	}
 	paidTuple := map[string]int{}
+	paidW := map[string]int{} // per withdrawal: the recipient is keyed by ACCOUNT, not by spelling
 	paidLeaf := map[string]bool{}
 	prev := viewL1(c.Obs[0])
 	for i := 1; i < len(c.Ops); i++ {
@@ -37,6 +38,11 @@ func c02Monitor(rep *Report, c *L1Case) {
 				paidTuple[k]++
 				if paidTuple[k] > 1 {
 					l1Violate(rep, c, i, "C02:paid-twice", fmt.Sprintf("claim tuple (bridge %d, sequence %d, %s -> %s, %s%s) was paid %d times", o.Bridge, o.Seq, o.From, o.To, o.Amt, o.Denom, paidTuple[k]))
+				}
+				wk := fmt.Sprintf("%d|%d|%s|%d|%s|%s", o.Bridge, o.Seq, o.From, c.idOf(o.To), o.Denom, o.Amt.String())
+				paidW[wk]++
+				if paidW[wk] > 1 && paidTuple[k] == 1 {
+					l1Violate(rep, c, i, "C02:paid-twice", fmt.Sprintf("withdrawal (bridge %d, sequence %d, %s -> account %d, %s%s) was paid %d times under different spellings of the recipient (this time %q)", o.Bridge, o.Seq, o.From, c.idOf(o.To), o.Amt, o.Denom, paidW[wk], o.To))
 				}
 				lk := fmt.Sprintf("%d:%s", o.Bridge, hex.EncodeToString(leafOfOp(o)))
 				if paidLeaf[lk] && paidTuple[k] == 1 {
@@ -67,6 +73,7 @@ func c02Monitor(rep *Report, c *L1Case) {
 			want := paidLeaf[cl[0]+":"+cl[1]]
 			if v.Claimed(j) != want {
 				l1Violate(rep, c, i, "C02:claimed-flag", fmt.Sprintf("Claimed(bridge %s, %s) = %v after step %d but paid = %v", cl[0], cl[1], v.Claimed(j), i, want))
+				paidLeaf[cl[0]+":"+cl[1]] = v.Claimed(j) // report each discrepancy once
 			}
 		}
 		prev = v
@@ -98,6 +105,7 @@ func c02Script(sc *L1Scenario, tier int) {
 		return
 	}
 	sc.fundEscrow(b, 3000)
+	sc.fundBig(b)
 	base := sc.MakeTree(b, []int{1, 2, 3, 3, 5, 7}[r.Intn(6)])
 	var live []*ProposedTree // outputs currently stored, by index order
 	var all []*ProposedTree  // every tree ever proposed (stale ones included)
@@ -113,7 +121,7 @@ func c02Script(sc *L1Scenario, tier int) {
 		n = 60
 	}
 	for i := 0; i < n; i++ {
-		switch r.Weighted([]int{18, 40, 8, 10, 8, 10, 6}) {
+		switch r.Weighted([]int{18, 40, 8, 10, 8, 10, 6, 14, 8}) {
 		case 0:
 			sc.Advance([]int64{period, period + sec, sec, 1}[r.Intn(4)])
 		case 1: // claim a leaf against an output that was proposed with a tree containing it
@@ -152,6 +160,17 @@ func c02Script(sc *L1Scenario, tier int) {
 			cp := &ProposedTree{Bridge: b, Tree: base.Tree, Version: byte(r.Intn(3)), BHash: r.Bytes(32)}
 			cp.Root = outputRootOf(cp.Version, cp.Tree.Root(), cp.BHash)
 			propose(cp)
+		case 7: // a paid claim with the recipient in upper case / a claim with amount + k*2^64
+			sc.variantStep()
+		case 8: // a claim of the base tree with amount + k*2^64 (same low 64 bits) against a live output
+			if len(all) == 0 {
+				continue
+			}
+			pt := all[r.Intn(len(all))]
+			op := sc.Claim(pt, r.Intn(len(pt.Tree.Ws)), e.User(uint64(1+r.Intn(7))).Str)
+			op.Bridge, op.Idx = b, pt.Idx
+			op.Amt = new(big.Int).Add(op.Amt, new(big.Int).Mul(two64, big.NewInt(int64(1+r.Intn(2)))))
+			sc.Case.Do(op)
 		}
 	}
 }
@@ -248,7 +267,8 @@ func genC02(seed uint64, tier, outdir string) *Report {
 	w.Replay, w.AdvanceChance = 60, 55
 	rep := runMoneyStream(MoneyStream{Prop: "C02", Weights: w, NRandom: [2]int{12, 150}, Len: [2]int{60, 140},
 		Scripts: []func(*L1Scenario, int){c02Script}, NScript: [2]int{16, 200},
-		Monitors: []L1Monitor{c02Monitor}, Extra: c02Exhaustive,
+		Monitors: []L1Monitor{c02Monitor, provenLeafMonitor("C02")}, Extra: c02Exhaustive,
+		Prep: whalePrep, Spice: (*L1Scenario).variantStep, SpicePct: 12,
 		Rule: "a case is one L1 history on a fresh instance (scripted resubmission-dense schedule plus random tail, fully random, or one schedule of the exhaustive enumeration); distinct by hash of the op list; non-trivial = at least one finalization accepted and at least one rejected"},
 		seed, tier, outdir)
 	rep.Exhaustive = true
